@@ -51,7 +51,7 @@ func c15History(c *Ctx, id string, conf machConf, wkind string, autosave, autono
 		}
 		isMgmt := false
 		switch op.Kind {
-		case "add", "addmany", "addmanyex", "remove", "removemany", "update", "updatemany", "removefiltered":
+		case "add", "addmany", "addmanyex", "remove", "removemany", "update", "updatemany", "removefiltered", "updatefiltered":
 			isMgmt = true
 		case "autosave":
 			curSave = op.B
@@ -121,7 +121,7 @@ func c15History(c *Ctx, id string, conf machConf, wkind string, autosave, autono
 func init() {
 	register("C15", func(c *Ctx) {
 		c.Rule = "seeded histories (length 8..26) of management calls incl. no-op, failing (injected adapter errors) and Self* calls, SavePolicy, LoadPolicy, flag toggles, on three models x watcher kinds {plain, ex, upd, none} x the four auto-save/auto-notify settings; every step compared with the model on result, listed rules, notifications with their callback-time snapshots, adapter content. Distinct = history; non-trivial = the history changes the listed rules."
-		nh := 1800
+		nh := 6000
 		if c.Thorough() {
 			nh = 20000
 		}
@@ -132,7 +132,7 @@ func init() {
 			wk := wkinds[(h/3)%len(wkinds)]
 			autosave := (h/12)%2 == 0
 			autonotify := (h/24)%2 == 0
-			opts := machGenOpts{Clear: h%11 == 0, Load: h%4 == 0, Save: true, Flags: h%5 == 0, Self: true, Fail: h%3 == 0}
+			opts := machGenOpts{Clear: h%11 == 0, Load: h%4 == 0, Save: true, Flags: h%5 == 0, Self: true, Fail: h%3 == 0, UpdateFiltered: true}
 			c15History(c, fmt.Sprintf("c15.h%d", h), conf, wk, autosave, autonotify, 8+c.Rng.Intn(19), opts)
 		}
 	})
